@@ -107,9 +107,17 @@ def replay_histories(run, cfg):
     for st in tlaval.parse_dump(path + ".dump"):
         hist = st["hist"]
         comb = CombinedRegistry()
+        inner = CombinedRegistry()          # ONE live object: grows, and is added to `comb` again and again
         for i, name in enumerate(hist):
             if name == "?":                 # the registry is looked at between two additions
                 len(comb), list(comb), ("a" in comb)
+            elif name == "I":
+                if i % 2:
+                    comb.add_registry(inner)
+                else:
+                    comb << inner
+            elif name.startswith("I:"):
+                inner << build_member(world, name[2:])
             elif i % 2:
                 comb.add_registry(build_member(world, name))
             else:
@@ -121,11 +129,11 @@ def replay_histories(run, cfg):
         if n == 40:
             run.add_sample({"history": hist, "spec_items": want, "impl_items": got})
         if sorted(got) != sorted(want) or len(comb) != len(want):
-            run.violation("C20", "C20:ReplayedHistory", "C20:ReplayedHistory|%s%s" % ("nested" if any(h.startswith("C") for h in hist) else "flat", "|observed" if "?" in hist else ""),
+            run.violation("C20", "C20:ReplayedHistory", "C20:ReplayedHistory|%s%s%s" % ("nested" if any(h.startswith("C") for h in hist) else "flat", "|observed" if "?" in hist else "", "|live" if "I" in hist else ""),
                           "adding members %s: the specification gives items %s, the real CombinedRegistry holds %s (len %d)" % (hist, want, got, len(comb)),
                           {"kind": "replay-registry", "world": world, "hist": hist, "want": want})
         if n % 7 == 0:
-            events.append([observe(comb, "combined", {"members": [world[h] for h in hist if h != "?"]}, tagfn=lambda it: int(it.name[3:]), absent=["zz", ""])])
+            events.append([observe(comb, "combined", {"members": [m for m in st["added"] if m]}, tagfn=lambda it: int(it.name[3:]), absent=["zz", ""])])
     run.replayed["combined-histories"] = n
     shutil.rmtree(d, ignore_errors=True)
     return events
@@ -149,6 +157,13 @@ def filesystem_events(rng, q):
             exts = ["gb", "gbk", "gb", "gbk", "GB", "Gbk", "genbank", "txt", "fasta", "gb.bak"]
             for i, (_, key, seq, cls) in enumerate(chosen):
                 rec = yreg[key].entity.record
+                if rng.random() < 0.6:
+                    # the same plasmid deposited with another origin: on or next to one of its recognition sites, or anywhere
+                    s0 = str(rec.seq)
+                    up = s0.upper()
+                    hits = [i for i in range(len(up)) if (up + up)[i:i + 6] in ("GGTCTC", "GAGACC")]
+                    k = (rng.choice(hits) + rng.randint(-6, 11)) % len(s0) if hits and rng.random() < 0.8 else rng.randrange(len(s0))
+                    rec = rec << k          # (feature table kept: the resistance marker is read from it)
                 ext = exts[i % len(exts)] if i < len(exts) else rng.choice(exts)
                 stem = rng.choice(["%s_%d" % (key, i), "plasmid-%d" % i, "%s.v%d" % (key, i), "lab.%d.final" % i])
                 with open(os.path.join(d, "%s.%s" % (stem, ext)), "w") as f:
@@ -230,9 +245,16 @@ def replay_case(rec):
         from moclo.registry.base import CombinedRegistry
         loader.load()
         comb = CombinedRegistry()
-        for name in case["hist"]:
+        inner = CombinedRegistry()
+        for i, name in enumerate(case["hist"]):
             if name == "?":
                 len(comb), list(comb)
+            elif name == "I":
+                comb.add_registry(inner) if i % 2 else comb << inner
+            elif name.startswith("I:"):
+                inner << build_member(case["world"], name[2:])
+            elif i % 2:
+                comb.add_registry(build_member(case["world"], name))
             else:
                 comb << build_member(case["world"], name)
         got = [(k, int(comb[k].name[3:])) for k in comb]
